@@ -21,7 +21,7 @@ rows = ["| commit | property | what failed (commit subject) |", "|---|---|---|"]
 for h, s in fixes:
     rows.append(f"| {h} | {' '.join(sorted(fixed_by.get(h[:7], []))) or '?'} | {s[4:].strip()[:400].replace('|', '/')} |")
 fix_table = "\n".join(rows)
-built = re.sub(r"\| commit \| property \| what failed \|\n\|---\|---\|---\|\n(?:\|.*\n)+", fix_table + "\n", built)
+built = re.sub(r"\| commit \| property \| what failed \|\n\|---\|---\|---\|\n(?:\|.*\n)+", lambda m: fix_table + "\n", built)
 # --- seeds
 seed = subprocess.run(["python3", f"{R}/tools/seed_table.py"], capture_output=True, text=True).stdout
 # --- claims
